@@ -648,6 +648,9 @@ func c18RunImm(m *vk.M, idx int, sc c18ImmScn) bool {
 			panic(c18Panic{n})
 		}
 		if sc.Steps[atomic.LoadInt64(&step)].Fail {
+			if n%2 == 0 {
+				return -n, errBoom // a value together with the error: the fetch failed all the same
+			}
 			return nil, errBoom
 		}
 		return n, nil
@@ -676,6 +679,9 @@ func c18RunImm(m *vk.M, idx int, sc c18ImmScn) bool {
 			return true
 		case succeeded && (err != nil || v != got):
 			m.Violate("C18:immutableresource:value-changed", desc, "step %d: Get returned (%v,%v) after the resource had been fetched as %v", i, v, err, got)
+			return true
+		case !succeeded && (st.Fail || fetched == 0) && v != nil:
+			m.Violate("C18:immutableresource:failed-fetch-value-returned", desc, "step %d: Get returned the value %v although no fetch has succeeded yet (failed fetches return a value together with their error)", i, v)
 			return true
 		case !succeeded && fetched == 1 && lastFetch >= 0 && now < lastFetch+sc.Interval: // a retry exactly at the interval is left open
 			m.Violate("C18:immutableresource:refetch-before-interval", desc, "step %d: fetch retried %dms after the failed fetch, refresh interval %dms (virtual clock)", i, now-lastFetch, sc.Interval)
